@@ -9,6 +9,14 @@ struct Pr(u32);
 impl PartialOrd for Pr { fn partial_cmp(&self, o:&Self)->Option<Ordering>{ Some(self.cmp(o)) } }
 impl Ord for Pr { fn cmp(&self, o:&Self)->Ordering { FUSE.with(|f| { let v=f.get(); if v==0 { f.set(i64::MAX); panic!("cmp fuse"); } f.set(v-1); }); self.0.cmp(&o.0) } }
 
+/// a legal size_hint with a huge upper bound, as `(0..usize::MAX).filter(..)` reports
+struct WideHint<I>(I);
+impl<I: Iterator> Iterator for WideHint<I> {
+    type Item = I::Item;
+    fn next(&mut self) -> Option<I::Item> { self.0.next() }
+    fn size_hint(&self) -> (usize, Option<usize>) { (0, Some(usize::MAX)) }
+}
+
 fn main() {
     let which = std::env::args().nth(1).unwrap();
     match which.as_str() {
@@ -49,11 +57,11 @@ fn main() {
         "d4" => {
             let mut q: PriorityQueue<usize,usize> = PriorityQueue::new();
             q.push(1,1);
-            q.extend((0..usize::MAX).filter(|x| *x < 3).map(|x| (x,x)));
+            q.extend(WideHint(0..3usize).map(|x| (x,x)));
             println!("ok len={}", q.len());
         }
         "d4b" => {
-            let q: PriorityQueue<usize,usize> = (0..usize::MAX).filter(|x| *x < 3).map(|x| (x,x)).collect();
+            let q: PriorityQueue<usize,usize> = WideHint(0..3usize).map(|x| (x,x)).collect();
             println!("ok len={}", q.len());
         }
         "d6" => {
